@@ -571,6 +571,7 @@ class Grid:
         """
 
         interp_axes = []
+        interp_to = []
         for axname, axis in self.axes.items():
             try:
                 position_array, _ = axis._get_position_name(array)
@@ -582,14 +583,22 @@ class Grid:
             except KeyError:
                 continue
             if position_like != position_array:
+                # interpolate to the position of `like` (not to the default shift of the axis);
+                # positions other than center are only connected through center
+                if "center" not in (position_array, position_like):
+                    interp_axes.append(axname)
+                    interp_to.append("center")
                 interp_axes.append(axname)
+                interp_to.append(position_like)
 
-        array = self.interp(
-            array,
-            interp_axes,
-            fill_value=fill_value,
-            boundary=boundary,
-        )
+        for axname, position in zip(interp_axes, interp_to):
+            array = self.interp(
+                array,
+                axname,
+                to=position,
+                fill_value=fill_value,
+                boundary=boundary,
+            )
         return array
 
     def __repr__(self):
